@@ -20,6 +20,10 @@ package verifharness
 //   transfer <chain> <tok> <from> <to> <amt>      -> ok|err <dump chain> (ordinary coin / ERC-20 transfer by a keyed account)
 //   send <chain> <sender> <dst> <tok> <amt> <receiver> <feeTok> <feeAmt> <call>   -> ok|err <dump chain>
 //        call: n | po | pf | pr | ph | a:<refund>:<receiver>:<dst>:<fee>
+//   batch <chain> <acct> <strict 0|1> <leg>+      -> ok|err <dump chain>   (ONE transaction of a keyed account to the forwarder
+//        contract: every leg is a CALL frame; leg = A,<tok>,<amt>  (token.approve(endpoint, amt) by the forwarder)
+//        | S,<dst>,<tok>,<amt>,<receiver>,<feeTok>,<feeAmt>,<call>  (endpoint.crossChainCall by the forwarder, native coin as value);
+//        strict = 1: a failing frame reverts everything)
 //   recv <src> <dst> <seq> [forge]                -> ok code=<ack code>|err <dump dst>
 //   ack  <src> <dst> <seq> [forge]                -> ok|err <dump src>
 
@@ -34,6 +38,8 @@ import (
 
 	sdk "github.com/cosmos/cosmos-sdk/types"
 	"github.com/ethereum/go-ethereum/common"
+
+	evm "github.com/tharsis/ethermint/x/evm/types"
 
 	stakingcontract "github.com/teleport-network/teleport/syscontracts/staking"
 	agentcontract "github.com/teleport-network/teleport/syscontracts/xibc_agent"
@@ -140,7 +146,7 @@ func (h *c03Harness) view(i int) c03View {
 		}
 	}
 	for t := 1; t < ntok; t++ {
-		for _, a := range []int{c03AccAgent, c03AccU8, c03AccU9} {
+		for _, a := range []int{c03AccAgent, c03AccU8, c03AccU9, c03AccFwd} {
 			if l := w.allowance(i, w.tok[i][t], w.acc[a]); l.Sign() != 0 {
 				parts = append(parts, fmt.Sprintf("l:%d.%d=%s", t, a, l))
 			}
@@ -324,6 +330,35 @@ func (h *c03Harness) feeConserved(S int, mech string) {
 	}
 }
 
+// checkPacketSentLogs: every PacketSent event in the receipt of a successful transaction (the endpoint has already
+// escrowed / burnt for it) must have its commitment in the keeper's store — escrow without commitment can end neither
+// delivered nor refunded. Returns the number of PacketSent events.
+func (h *c03Harness) checkPacketSentLogs(c int, logs []*evm.Log, mech string) int {
+	ev := packetcontract.PacketContract.ABI.Events["PacketSent"]
+	n := 0
+	for _, l := range logs {
+		if common.HexToAddress(l.Address) != packetcontract.PacketContractAddress || len(l.Topics) == 0 || common.HexToHash(l.Topics[0]) != ev.ID {
+			continue
+		}
+		n++
+		vals, err := packetcontract.PacketContract.ABI.Unpack("PacketSent", l.Data)
+		if err != nil {
+			h.r.t.Fatalf("PacketSent unpack: %v", err)
+		}
+		var p packettypes.Packet
+		if err := p.ABIDecode(vals[0].([]byte)); err != nil {
+			h.r.t.Fatalf("PacketSent packet: %v", err)
+		}
+		want, _ := packettypes.CommitPacket(&p)
+		got := h.w.ch[c].App.XIBCKeeper.PacketKeeper.GetPacketCommitment(h.w.ch[c].GetContext(), p.SrcChain, p.DstChain, p.Sequence)
+		if !bytes.Equal(want, got) {
+			h.find("C03:escrow-without-commitment:"+mech, fmt.Sprintf("PacketSent event #%d of a successful transaction (%s -> %s seq %d): the endpoint escrowed/burnt for it but the keeper holds no matching commitment", n, p.SrcChain, p.DstChain, p.Sequence),
+				fmt.Sprintf("commitment %x", got), fmt.Sprintf("commitment %x", want))
+		}
+	}
+	return n
+}
+
 func (h *c03Harness) conservedAround(x int, mech string) {
 	h.feeConserved(x, mech)
 	for y := 0; y < c03NChains; y++ {
@@ -492,9 +527,10 @@ func (h *c03Harness) apply(op string) string {
 			value.Add(value, fa)
 		}
 		var failed bool
+		var sendLogs []*evm.Log
 		pan, msg := safely(func() {
 			var events sdk.Events
-			failed, _, events = w.sendTxAs(c, snd, endpointcontract.EndpointContractAddress, value, payload)
+			failed, _, events, sendLogs = w.sendTxLogs(c, snd, endpointcontract.EndpointContractAddress, value, payload)
 			if !failed {
 				w.notePackets(events.ToABCIEvents())
 			}
@@ -523,7 +559,90 @@ func (h *c03Harness) apply(op string) string {
 		if t == 0 {
 			r.Count("send.ok.native")
 		}
+		h.checkPacketSentLogs(c, sendLogs, "send")
 		h.conservedAround(c, "send")
+		return "ok " + after.String()
+	case "batch":
+		c, snd, strict := c03Atoi(f[1]), c03Atoi(f[2]), f[3] != "0"
+		before := h.view(c)
+		var frames []c03Frame
+		total := big.NewInt(0)
+		nSend, mech := 0, "batch"
+		dsts := map[int]int{}
+		for _, leg := range f[4:] {
+			g := strings.Split(leg, ",")
+			switch g[0] {
+			case "A":
+				amt, _ := new(big.Int).SetString(g[2], 10)
+				data, _ := w.erc20().Pack("approve", endpointcontract.EndpointContractAddress, amt)
+				frames = append(frames, c03Frame{to: w.tok[c][c03Atoi(g[1])], value: big.NewInt(0), data: data})
+			case "S":
+				d, t, rcv, ft := c03Atoi(g[1]), c03Atoi(g[2]), c03Atoi(g[4]), c03Atoi(g[5])
+				amt, _ := new(big.Int).SetString(g[3], 10)
+				fa, _ := new(big.Int).SetString(g[6], 10)
+				contract, cd := h.callData(d, g[7])
+				data := packettypes.CrossChainData{DstChain: h.name(d), TokenAddress: w.tok[c][t], Receiver: strings.ToLower(w.acc[rcv].String()), Amount: amt,
+					ContractAddress: contract, CallData: cd, CallbackAddress: common.Address{}, FeeOption: 0}
+				payload, err := endpointcontract.EndpointContract.ABI.Pack("crossChainCall", data, packettypes.Fee{TokenAddress: w.tok[c][ft], Amount: fa})
+				if err != nil {
+					r.t.Fatal(err)
+				}
+				value := big.NewInt(0)
+				if t == 0 {
+					value.Add(value, amt)
+				}
+				if ft == 0 {
+					value.Add(value, fa)
+				}
+				total.Add(total, value)
+				frames = append(frames, c03Frame{to: endpointcontract.EndpointContractAddress, value: value, data: payload})
+				nSend++
+				dsts[d]++
+			default:
+				r.t.Fatalf("bad leg %q", leg)
+			}
+		}
+		var failed bool
+		var logs []*evm.Log
+		pan, msg := safely(func() {
+			var events sdk.Events
+			failed, _, events, logs = w.sendTxLogs(c, snd, w.acc[c03AccFwd], total, c03ForwarderCalldata(strict, frames))
+			if !failed {
+				w.notePackets(events.ToABCIEvents())
+			}
+		})
+		if pan {
+			r.t.Fatalf("panic in batch: %s", msg)
+		}
+		w.coord.CommitBlock(w.ch[c])
+		h.observeNew(mech, false)
+		after := h.view(c)
+		if failed {
+			r.Count("batch.err")
+			if dsts[c03Ghost] > 0 {
+				r.Count("batch.err.leg-without-client")
+			}
+			for _, n := range dsts {
+				if n > 1 {
+					r.Count("batch.err.same-destination-twice")
+					break
+				}
+			}
+			if after.String() != before.String() {
+				h.find("C03:failed-send-changed-state", "a failed batch transaction changed the chain's views", after.String(), before.String())
+			}
+			return "err " + after.String()
+		}
+		r.Count("batch.ok")
+		sent := h.checkPacketSentLogs(c, logs, mech)
+		r.Count(fmt.Sprintf("batch.ok.packets%d", c03Min(uint64(sent), 3)))
+		if sent >= 2 {
+			r.Count("batch.ok.multi")
+		}
+		if sent < nSend {
+			r.Count("batch.ok.leg-skipped")
+		}
+		h.conservedAround(c, mech)
 		return "ok " + after.String()
 	case "recv":
 		s, d := c03Atoi(f[1]), c03Atoi(f[2])
